@@ -269,6 +269,40 @@ def c07_require(agg):
     return need
 
 
+# ------------------------------------------------------------------ C08
+
+def c08_env(b):
+    e = {}
+    sb = [8192, None, 16384][b % 3]
+    if sb:
+        e["IPCMON_SNDBUF"] = sb
+    if b % 4 == 2:
+        e["IPCMON_DELAY"] = "%d:%d:%d" % (b + 5, 100, 300)
+    return e
+
+
+def c08_plan(tier, seed):
+    q = tier == "quick"
+    out = jobs("os-debug", "c08", 10 if q else 28, c08_env, {"cases": 10 if q else 120}, timeout=1800)
+    out += jobs("inproc-debug", "c08", 2 if q else 4, None, {"cases": 10 if q else 120}, timeout=1800)
+    return out
+
+
+def c08_require(agg):
+    st = agg["stats"]
+    need = []
+    for k in ("kind_0", "kind_1", "kind_2", "kind_3", "kind_4"):
+        if st.get(k, 0) < 20:
+            need.append("fewer than 20 scenarios of %s" % k)
+    if st.get("process_clients", 0) < 20:
+        need.append("fewer than 20 clients in another process")
+    if st.get("accept_first_confirmed", 0) < 20:
+        need.append("fewer than 20 accept-first scenarios confirmed inside accept(2)")
+    if st.get("max_servers_alive_at_once", 0) < 30:
+        need.append("fewer than 30 servers alive at once")
+    return need
+
+
 # ------------------------------------------------------------------ C19
 
 def c19_plan(tier, seed):
@@ -322,6 +356,20 @@ NOTES = ("Runtime monitoring and sanitizers. ./check <id> rebuilds the harness (
 NOT_APPLICABLE = {}
 
 PROPS = {
+    "C08": {
+        "plan": c08_plan,
+        "require": c08_require,
+        "level": "exploration",
+        "level_text": "Exploration: 1..200 (40 in quick) one-shot servers alive at once are each finished in one of five orders (client done and gone before accept; "
+                      "accept first - sequenced by observing the thread inside accept(2); send/accept/send; dropped unused; dropped with a connected client), with "
+                      "thread and exec'd-process clients sending 1..20 mixed messages with probed attachments; after every finished server and at the end the "
+                      "private TMPDIR and the descriptor table must be back to what they were.",
+        "level_note": "Clients that must be gone before accept send less than the socket buffer. Close-on-exec of the accepted socket is C11's clause. "
+                      "The in-process transport is checked for names and messages only.",
+        "technique": "runtime monitoring: order-enumerating bootstrap scenarios with /proc-sequenced accept-first, message oracle and fd/TMPDIR balance checks",
+        "rule": "case = one batch of servers alive together with a finishing order per server; distinct = (server count, sequence of (order kind, client kind)); every case is non-trivial",
+        "assumptions": ["TMPDIR is private to the batch, so every entry in it was made by the library"],
+    },
     "C07": {
         "plan": c07_plan,
         "require": c07_require,
